@@ -330,12 +330,20 @@ def letters_of(eng, c):
 
 
 def order_dep_signature(eng, c, model_env_line=None):
-    """which of the known order-dependence patterns the directory of this case contains"""
+    """names the features of this directory that can CAUSE an order dependence in the code under test
+    (the probed form of _mod_register/_cmp_f decides which features still count):
+      dup-pers   a module of another personality with the same (type,name) as a loadable module and a higher
+                 priority -- only while _mod_register tests the personality after the eviction
+      dup-equal  two loadable modules with the same (type,name) and the same, group-maximal priority
+      tie        two loadable modules of different (type,name) with equal name and priority, both maximal
+                 in their own group -- both only while ties are not broken by type / file name
+    anything else is `order-dep:other` and never matches a finding"""
     pool = eng.pool
     if not eng.uses_env(c):
         return "order-dep:other"
     sm = c["statmap"]
-    owner = PDSH_OWNER if eng.exe in sm and sm[eng.exe] != "!" else 0
+    ost = file_stat(real_stat(eng.exe), sm.get(eng.exe))
+    owner = None if ost == "!" else int(ost.split(":")[0])
     mods = []
     for f in c["files"]:
         d = pool.by_file.get(f)
@@ -348,17 +356,25 @@ def order_dep_signature(eng, c, model_env_line=None):
         if (mode & 0o170000) != 0o100000 or (mode & 0o002) or uid not in (0, c["uid"], owner):
             continue
         mods.append(d)
+    prio = lambda d: d.effective_prio(eng.default_prio)
+    ok = [d for d in mods if d.pers & c["pers"]]
+    foreign = [d for d in mods if not (d.pers & c["pers"])]
+    top = {}
+    for d in ok:
+        k = (d.type, d.name)
+        top[k] = max(top.get(k, prio(d)), prio(d))
+    best = [d for d in ok if prio(d) == top[(d.type, d.name)]]
     pats = set()
-    for a, b in itertools.combinations(mods, 2):
-        same_key = (a.type, a.name) == (b.type, b.name)
-        pa, pb = a.effective_prio(eng.default_prio), b.effective_prio(eng.default_prio)
-        a_ok, b_ok = bool(a.pers & c["pers"]), bool(b.pers & c["pers"])
-        if same_key and (not a_ok or not b_ok):
-            pats.add("dup-pers")
-        elif same_key and pa == pb:
-            pats.add("dup-equal")
-        elif not same_key and a.name == b.name and pa == pb and a_ok and b_ok:
-            pats.add("tie")
+    if "pers" not in eng.repaired:
+        for f in foreign:
+            if any((f.type, f.name) == (d.type, d.name) and prio(f) > prio(d) for d in ok):
+                pats.add("dup-pers")
+    if "tie" not in eng.repaired:
+        for a, b in itertools.combinations(best, 2):
+            if (a.type, a.name) == (b.type, b.name):
+                pats.add("dup-equal")
+            elif a.name == b.name and prio(a) == prio(b):
+                pats.add("tie")
     return "order-dep:" + ("+".join(sorted(pats)) if pats else "other")
 
 
@@ -403,8 +419,10 @@ def run(ctx):
         # handling: the loadable lower-priority module survives whatever the order)
         probe = planned_cases(eng)[2]
         eng.margs = ["model"]
+        eng.repaired = set()
         if ("m25.so", True) in eng.observe(eng.run(probe))["listed"]:
             eng.margs = ["model", "persfirst"]
+            eng.repaired.add("pers")
             ctx.log("_mod_register tests the personality first (F17-PERS repaired): model runs as `persfirst`")
         dist["variant"] = " ".join(eng.margs)
         cases = [(c, "planned") for c in planned_cases(eng)]
